@@ -8,7 +8,7 @@ from vlib.worker import exc_key
 PROPERTY = 'C11'
 LEVEL = 'exploration'
 RULE = ('Random well-nested write histories: 1-3 interchanges x 0-3 groups x 0-3 sets x 0-5 body segments (some with composites / trailing empty '
-        'elements); every loop is closed by its own trailer (right counts), by its own trailer with wrong/non-numeric/absent counts and ids, or left to '
+        'elements / no data at all); every loop is closed by its own trailer (right counts), by its own trailer with wrong/non-numeric/absent counts and ids, or left to '
         'an enclosing trailer / Close() (only where the property allows: the last child of its parent). Each history is replayed in full and for '
         'several prefixes followed by Close(), under random delimiter quadruples, eol in {"", LF, CRLF} and both ISA versions. Oracle 1: text equals '
         'the model (non-trailer segments in normal form with the writer\'s delimiters, ISA11/ISA16 replaced, every trailer regenerated from the header id '
@@ -23,7 +23,8 @@ MIN_CASES = {'quick': 4000, 'thorough': 1500000}
 TERMS = [('~', '*', ':', '^', '\n'), ('!', '|', '>', '^', ''), ('\x1c', '\x1d', '<', '\x1f', '\r\n'), ('\n', '*', ':', '^', ''), ('~', '*', '\\', '^', '\n'),
          ('\'', '+', ':', '!', '\n'), ('$', '^', '&', '#', '')]
 BODY = ['BHT*0019*00*1', 'NM1*85*2*X', 'REF*87*1', 'HL*1**20*1', 'SV1*HC:99213*40*UN*1', 'SV1*HC:99213:25::*40', 'N3*1 MAIN ST**', 'DTP*472*D8*20040407',
-        'CLM*A1*100***11:B:1*Y', 'LX*1', 'PER*IC*X*TE*5551212***', 'K3*A  B']
+        'CLM*A1*100***11:B:1*Y', 'LX*1', 'PER*IC*X*TE*5551212***', 'K3*A  B',
+        'REF', 'REF**', 'N3*', 'SV1*::*']          # segments without any data: written as '<id><sep><terminator>' and counted like any other
 
 
 def gen(rng):
